@@ -192,7 +192,7 @@ class C03(Plan):
     def gen(self, tier, seed):
         g = Gen(seed)
         ns = Ns(tier, [0, 1, 2, 3], [0, 1, 2, 3, 4, 5])
-        for fam in (fam_push, fam_pop, fam_index1, fam_bulk, fam_constructors):
+        for fam in (fam_push, fam_pop, fam_index1, fam_bulk, fam_constructors, fam_swap, fam_mut_views):
             g.one_step(ns, [4], fam)
         g.one_step(Ns(tier, [0, 1, 2, 3], [0, 1, 2, 3, 4]), [4],
                    lambda c, N, sz: fam_drain(c, N, sz, sc_for(tier, 2)))
